@@ -183,7 +183,8 @@ func c15Scenario(x *mc.X) *mc.Outcome {
 	fillSentinel(dest.Elem(), root)
 	var orders [][]int
 	installOrderRecorder(x, zh.OrderRev, &orders)
-	real := RunParse(schema, zhttp.Request(mkSeen()), dest)
+	provider := zhttp.Request(mkSeen())
+	real := RunParse(schema, provider, dest)
 	zh.Reset()
 	desc := fmt.Sprintf("%s Content-Type=%q body[%s]=%q query[%s]=%q x.required=%v schema-is-pointer=%v unknown-length=%v middleware(0 none,1 ParseForm,2 FormValue)=%d config-parsers-wrapped=%v", method, ct.value, body.name, clip(body.text), query.name, query.raw, reqX, ptrRoot, stream, middleware, wrapped)
 	out := &mc.Outcome{Traces: 1, Nontrivial: true}
@@ -255,6 +256,29 @@ func c15Scenario(x *mc.X) *mc.Outcome {
 		}
 		if real.RawMap["$root"][0].Message == "" {
 			return fail("C15:decode-message", "decode issue without a message", "non-empty", "")
+		}
+		// the same request value handed to Parse a second time (a handler that reads two schemas from one
+		// request): its body is as undecodable as before. (Not for forms: net/http reports a malformed form once
+		// and hands every later reader the pairs it could parse.)
+		if source != "json" {
+			return out
+		}
+		var orders2 [][]int
+		installOrderRecorder(x, zh.OrderRev, &orders2)
+		dest2 := reflect.New(root.GoType())
+		fillSentinel(dest2.Elem(), root)
+		again := RunParse(schema, provider, dest2)
+		zh.Reset()
+		out.Traces++
+		ok2 := again.Panic == "" && len(again.Issues) == 1 && again.Issues[0].Key == "$root" && again.Issues[0].Code == decodeIssue && again.First != nil && again.First.Code == decodeIssue
+		if !ok2 {
+			return fail("C15:decode-contract-second-parse:"+decodeIssue, "the request value of an undecodable "+source+" request, parsed a second time, must again yield exactly one top-level issue "+decodeIssue, "[$root||"+decodeIssue+"]", fmt.Sprint(again.IssueStrings())+again.Panic)
+		}
+		if len(rec.Count) != 0 {
+			return fail("C15:decode-schema-ran", "the schema ran on the second Parse of a request that could not be decoded", "no test invoked", fmt.Sprint(rec.Count))
+		}
+		if canonValue(pre.Elem()) != canonValue(dest2.Elem()) {
+			return fail("C15:decode-dest-written", "destination written by the second Parse of a request that could not be decoded", canonValue(pre.Elem()), canonValue(dest2.Elem()))
 		}
 		return out
 	}
